@@ -193,12 +193,24 @@ func (g *gen) c11Base(hook bool) []Op {
 	// modes at different places around the target: keep the base call's
 	// own strings valid UTF-8 (panic payloads stay arbitrary).
 	{
+		orig := append([]Step{}, findVal(&in, target.ID).P...)
 		st := &sites{}
 		st.walkOp(&in)
 		for _, x := range st.strs {
 			*x = Str(strings.ToValidUTF8(string(*x), "?"))
 		}
-		target = *findVal(&in, target.ID)
+		tv := findVal(&in, target.ID)
+		if spec.method == "Format" && len(orig) == len(tv.P) {
+			// the Format program's own writes keep arbitrary bytes (a chunk
+			// may end in the middle of a rune); the expectation knows the
+			// one seam rule that matters there (expectedFromTwin)
+			for i := range orig {
+				if orig[i].A == "w" || orig[i].A == "ws" {
+					tv.P[i].S = orig[i].S
+				}
+			}
+		}
+		target = *tv
 	}
 	L := len(target.P)
 	if nilrcv {
